@@ -10,6 +10,7 @@ mod ops;
 mod ops_lex;
 mod ops_json;
 mod ops_hooks;
+mod ops_pure;
 
 fn main() {
     // silence the default panic message; panics are reported in the answer
